@@ -31,6 +31,16 @@ def stepOp (h : Hist) (op : Sexp) : Hist × String :=
   | .list [.atom "min"] => (h, toString h.min)
   | .list [.atom "max"] => (h, toString h.max)
   | .list [.atom "reimport"] => (h, bit (h.reimport == h))
+  -- Export/Import gives an independent copy (`reimport` is a value): recording into the original
+  -- afterwards leaves the copy's total unchanged; the copy answers Max like the original
+  | .list [.atom "snaprec", v, n] =>
+    match v.nat?, n.nat? with
+    | some v, some n =>
+      let imp := h.reimport
+      match h.record v n with
+      | some h' => (h', s!"{imp.total},{imp.total},{bit (imp.max == h.max)}/ok")
+      | none => (h, s!"{imp.total},{imp.total},{bit (imp.max == h.max)}/err")
+    | _, _ => (h, "bad-op")
   | .list [.atom "merge"] =>
     let (m, dropped) := (Hist.new h.shape.lowest h.shape.highest h.shape.sigfigs).merge h
     (h, s!"{dropped},{bit (m == h)}")
